@@ -182,7 +182,11 @@ BND_RULE_V = (" V2 assertion boundary set (C09, never sampled; manifests built a
               "{RESOURCES_ONLY, RESOURCES_INCLUDE} x 28 constraint sets (none = IS_EMPTY; per resource non-zero / exact and at-least below, at and above "
               "the balance / exact ids / at-least ids / a non-fungible constraint on a fungible; pairs); ASSERT_BUCKET_CONTENTS on a full, a "
               "non-fungible, an empty, a partial and a consumed bucket x 23 constraints; ASSERT_NEXT_CALL_RETURNS_ONLY / _INCLUDE x 9 constraint sets "
-              "followed by every withdraw amount / id set, mint, deposit-batch, take-all (not a call) and burn, also with resources already on the worktop.")
+              "followed by every withdraw amount / id set, mint, deposit-batch, take-all (not a call) and burn, also with resources already on the worktop. "
+              "Bucket-proof lifecycle (62 scripts): a bucket holding the whole balance with 2-3 proofs of different amounts in both creation orders "
+              "(fungible 2/4, 4/2, 2/4/2; non-fungible {1}/{1,2} both orders), cloned proofs, every drop order, the bucket kept named or returned to "
+              "the worktop; then return / deposit / burn / further proofs of every amount, or take of every amount 0 .. balance + 1 granule / every id "
+              "set, take-all, assertions and deposit-batch, with the final balances compared: proofs never change what a bucket or the worktop holds.")
 BND_RULE = " The BOUNDARY set (never sampled, same in quick and thorough) is the full product (limit state reached by a scripted prefix: worktop = balance, part-locked vault, overlapping proofs, locked bucket on the worktop, burnt id, failed mint, lost signatures ...) x (every instruction kind that can consume it) x (every argument: amounts 0 .. balance + 1 granule in half-granule steps, all id sets), each followed by a closing sequence."
 
 ALL_OPS_CORE = ["IAssertResOnly", "IAssertResInclude", "IAssertNextCallOnly", "IAssertNextCallInclude", "IAssertBucket", "IWithdraw", "ITakeFromWorktop", "ITakeAll", "IReturnToWorktop", "IDeposit", "IDepositBatch", "IMint", "IBurn",
